@@ -228,6 +228,47 @@ impl ValCfg {
     }
 }
 
+/// every leaf data type the builders know (one representative per builder kind and parameter class)
+pub fn all_leaf_dts() -> Vec<Value> {
+    let mut v = vec![json!({"t": "Null"}), json!({"t": "Boolean"})];
+    for t in INT_TYPES {
+        v.push(json!({ "t": t }));
+    }
+    for t in ["Float16", "Float32", "Float64", "Utf8", "LargeUtf8", "Utf8View", "Binary", "LargeBinary", "BinaryView", "Date32", "Date64"] {
+        v.push(json!({ "t": t }));
+    }
+    v.push(json!({"t": "FixedSizeBinary", "n": 3}));
+    v.push(json!({"t": "Time32", "unit": "Second"}));
+    v.push(json!({"t": "Time32", "unit": "Millisecond"}));
+    v.push(json!({"t": "Time64", "unit": "Microsecond"}));
+    v.push(json!({"t": "Time64", "unit": "Nanosecond"}));
+    for u in UNITS {
+        v.push(json!({"t": "Duration", "unit": u}));
+    }
+    v.push(json!({"t": "Timestamp", "unit": "Millisecond", "tz": "UTC"}));
+    v.push(json!({"t": "Timestamp", "unit": "Second", "tz": Value::Null}));
+    v.push(json!({"t": "Decimal128", "p": 10, "s": 2}));
+    v.push(json!({"t": "Dictionary", "key": {"t": "Int8"}, "value": {"t": "Utf8"}}));
+    v.push(json!({"t": "Dictionary", "key": {"t": "UInt32"}, "value": {"t": "LargeUtf8"}}));
+    v
+}
+
+/// the offenders of the grid: values that are not representable at (almost) any position, null-likes first
+pub fn offenders() -> Vec<Value> {
+    vec![
+        sval::none(),
+        sval::unit(),
+        sval::string("not-a-number"),
+        sval::int("i64", i64::MAX as i128),
+        sval::seq(vec![sval::boolean(true)]),
+        sval::record("W", vec![("zz".into(), 0, sval::unit())]),
+        sval::unit_variant("E", 9, "Nope"),
+        sval::f64v(1.5),
+        sval::bytes(&[1, 2, 3, 4, 5]),
+        sval::map(vec![(sval::int("i32", 1), sval::int("i32", 2))]),
+    ]
+}
+
 /// a value of the wrong shape for (almost) any column
 fn wrong_value(r: &mut Rng) -> Value {
     match r.below(8) {
